@@ -21,6 +21,7 @@ struct WkdRun {
     RunEnv& env; W w; Rep& R; int view; SysM sys;
     std::vector<KeyM> keys; std::vector<PreM> pres; std::vector<CtM> cts; std::vector<SigM> sigs;
     const Plan& plan;
+    std::map<std::string, std::vector<uint8_t>> hopcache;   // intact bytes already judged by the C15 layout/length oracles
     WkdRun(RunEnv& e, const Plan& p) : env(e), w(e), R(*e.rep), view(e.view), plan(p) {}
 
     // ------------------------------------------------------------ plumbing
@@ -222,6 +223,7 @@ struct WkdRun {
 
     // ADJUST parent | from-directives (l) then one or more to-directive blocks (l each)
     void op_adjust(const Op& op) {
+        hopcache.clear();
         KeyM* pk0 = pick_key(op.arg(0)); if (!pk0 || pk0->tainted || sys.l == 0) return;
         size_t pi = (size_t) (pk0 - &keys[0]);
         std::vector<Slot> cur; std::vector<MAttr> from;
@@ -535,6 +537,7 @@ struct WkdScenario : Scenario {
         auto kn = [&](const char* k, int64_t d) { auto it = knobs.find(k); return it == knobs.end() ? d : it->second; };
         int l = (int) kn("l", r.range(0, 6)); if (r.chance(1, 12)) l = r.range(7, 9);
         p.cfg["l"] = l; p.cfg["sig"] = kn("sig", r.chance(3, 4)); p.cfg["setup_seed"] = (int64_t) (r.next() >> 1);
+        if (kn("hopenum", 0)) return generate_hopenum(r, kn("__idx", 0), kn("stride", 1));
         int focus = (int) kn("focus", 0);     // 0 mixed, 11..14 emphasise the ops of that property, 15 marshalling hops
         int nops = r.range(3, (int) kn("maxops", 30));
         // weights per op kind (swarm: each run draws its own mix)
@@ -571,6 +574,35 @@ struct WkdScenario : Scenario {
             else if (kind == "TAMPERCT") p.ops.push_back({kind, {(int64_t) r.below(64), (int64_t) r.below(3)}, {}});
             else if (kind == "HOP") p.ops.push_back(WkdRun::gen_hop(r));
         }
+        return p;
+    }
+
+    // Enumeration of the single-fault set for one (object kind, form, validating?, shape) combination:
+    // every embedded element x every invalid-encoding kind, every truncation length, extensions, junk.
+    Plan generate_hopenum(Rng& r, int64_t idx, int64_t stride) {
+        Plan p; p.scenario = name();
+        int kind = (int) (idx % 5), comp = (int) ((idx / 5) % 2), checked = (int) ((idx / 10) % 2), v = (int) ((idx / 20) % 4);
+        static const int ls[4] = {3, 0, 1, 2}, sg[4] = {1, 0, 1, 0};
+        int l = ls[v], sig = sg[v];
+        p.cfg["l"] = l; p.cfg["sig"] = sig; p.cfg["setup_seed"] = (int64_t) (r.next() >> 1);
+        std::vector<std::string> d; for (int i = 0; i < l; i++) d.push_back(i == 0 && l > 1 ? "f:r+1" : "-");
+        p.ops.push_back({"KEYGEN", {(int64_t) (r.next() >> 1), 0, 0}, d});
+        p.ops.push_back({"ENC", {(int64_t) (r.next() >> 1), 0, 0, 0}, {}});
+        if (sig) p.ops.push_back({"SIGN", {(int64_t) (r.next() >> 1), 0, 3, 0, 0}, std::vector<std::string>((size_t) l, "-")});
+        if (kind == 4 && !sig) kind = 3;
+        p.ops.push_back({"HOP", {kind, 0, comp, checked}, {}});
+        int n = kind == 0 ? l : (l > 1 ? l - 1 : l);
+        WireLayout L = wk_layout(kind + 1, comp != 0, sig != 0, n);
+        size_t ne = 0; for (auto& e : L.elems) if (e.g) ne++;
+        std::vector<std::string> kinds = invalid_kinds(); kinds.push_back("other");
+        for (size_t e = 0; e < ne; e++) for (auto& k : kinds) p.ops.push_back({"HOP", {kind, 0, comp, checked}, {strf("elem:%zu:%s:%llu", e, k.c_str(), (unsigned long long) (r.next() >> 8))}});
+        for (size_t n2 = 1; n2 < L.total; n2 += (size_t) stride) p.ops.push_back({"HOP", {kind, 0, comp, checked}, {strf("trunc:%zu", n2)}});
+        for (size_t n2 = 1; n2 <= 64; n2 += (size_t) stride) p.ops.push_back({"HOP", {kind, 0, comp, checked}, {strf("ext:%zu:%d", n2, (int) r.below(256))}});
+        size_t per = kind == 0 ? enc_size(1, comp) : enc_size(1, comp) + 4;
+        if (kind == 0 || kind == 2) for (int m = 1; m <= 3; m++) for (int fill : {0, 0xFF, 0xC0, 0x40}) p.ops.push_back({"HOP", {kind, 0, comp, checked}, {strf("ext:%zu:%d", per * (size_t) m, fill)}});
+        for (size_t off = 0; off < L.total; off += (size_t) (7 * stride)) p.ops.push_back({"HOP", {kind, 0, comp, checked}, {strf("flip:%zu:%d", off, (int) r.below(8))}});
+        p.ops.push_back({"HOP", {kind, 0, comp, checked}, {"flip:0:0"}}); p.ops.push_back({"HOP", {kind, 0, comp, checked}, {"set:0:2"}}); p.ops.push_back({"HOP", {kind, 0, comp, checked}, {"set:0:255"}});
+        for (int j = 0; j < 24; j++) p.ops.push_back({"HOP", {kind, 0, comp, checked}, {strf("junk:%d:%llu", (int) (j < 8 ? r.below(16) : r.below(4096)), (unsigned long long) (r.next() >> 8))}});
         return p;
     }
 
